@@ -903,6 +903,15 @@ func exec(op string) vlib.Res {
 		verdict, tags := S.orc.after(S, sp, pre, outcome)
 		if len(sp.extras) > 0 {
 			tags += ",extra-rrsets"
+			foreign := false
+			for _, e := range sp.extras {
+				for _, n := range e.named {
+					foreign = foreign || n.signer != 0
+				}
+			}
+			if foreign {
+				tags += ",extra-foreign-signer-name"
+			}
 		}
 		if len(sp.bad) > 0 {
 			tags += ",bad-rrsig"
